@@ -10,6 +10,7 @@ import (
 
 	"github.com/brimdata/super"
 	"github.com/brimdata/super/compiler/ast/dag"
+	"github.com/brimdata/super/compiler/optimizer/demand"
 	"github.com/brimdata/super/internal/verif"
 	"github.com/brimdata/super/order"
 	"github.com/brimdata/super/pkg/field"
@@ -51,10 +52,16 @@ type v07dState struct {
 	absent map[string]bool   // the whole subtree of the path is absent
 	only   map[string]bool   // non-nil: top-level fields not listed are absent
 	why    map[string]string // why a path lost its Sorted fact
+	ever   map[string]bool   // paths that carried a Sorted fact at some point
 }
 
 func v07dNewState() *v07dState {
-	return &v07dState{sorted: map[string]v07dFact{}, absent: map[string]bool{}, why: map[string]string{}}
+	return &v07dState{sorted: map[string]v07dFact{}, absent: map[string]bool{}, why: map[string]string{}, ever: map[string]bool{}}
+}
+
+func (s *v07dState) setSorted(p string, f v07dFact) {
+	s.sorted[p] = f
+	s.ever[p] = true
 }
 
 func v07dKey(p field.Path) string { return strings.Join(p, ".") }
@@ -91,6 +98,26 @@ func (s *v07dState) lookup(p string) (int, v07dFact, string) {
 	}
 	if w, ok := s.why[p]; ok {
 		return v07dUnknown, v07dFact{}, w
+	}
+	// the reason recorded for the nearest assigned ancestor or descendant
+	// (smallest path first, so that the choice does not depend on map order)
+	best, bestWhy := "", ""
+	for _, q := range v07dKeys(s.why) {
+		var w string
+		switch {
+		case v07dUnder(p, q):
+			w = s.why[q] + "-parent-of-key"
+		case v07dUnder(q, p):
+			w = s.why[q] + "-subfield-of-key"
+		default:
+			continue
+		}
+		if best == "" || q < best {
+			best, bestWhy = q, w
+		}
+	}
+	if best != "" {
+		return v07dUnknown, v07dFact{}, bestWhy
 	}
 	return v07dUnknown, v07dFact{}, "never-sorted"
 }
@@ -161,15 +188,24 @@ func (s *v07dState) cut(dsts, srcs []string) {
 	n := v07dNewState()
 	n.only = map[string]bool{}
 	n.why = s.why
+	n.ever = s.ever
 	for i := range dsts {
 		facts, abs := s.copied(srcs[i], dsts[i])
+		if k, _, w := s.lookup(srcs[i]); k == v07dUnknown && w != "never-sorted" {
+			n.why[dsts[i]] = w // the order was already lost upstream
+		} else if dsts[i] != srcs[i] {
+			n.why[dsts[i]] = "cut-assigned"
+		}
 		for q, f := range facts {
-			n.sorted[q] = f
+			n.setSorted(q, f)
 		}
 		for q := range abs {
 			n.absent[q] = true
 		}
-		n.only[v07dTop(dsts[i])] = true
+		if k, _, _ := s.lookup(srcs[i]); k != v07dAbsent {
+			// cutting a path no record has adds nothing to the output
+			n.only[v07dTop(dsts[i])] = true
+		}
 		// a sorted path strictly above the source loses the other subfields
 		for q := range s.sorted {
 			if q != srcs[i] && v07dUnder(srcs[i], q) {
@@ -182,16 +218,37 @@ func (s *v07dState) cut(dsts, srcs []string) {
 
 // rename dst:=src (dst must not exist, else the real operator yields an error value).
 func (s *v07dState) rename(dst, src string) {
-	dk, _, _ := s.lookup(dst)
+	for _, q := range v07dKeys(s.sorted) {
+		if v07dUnder(q, dst) || v07dUnder(dst, q) {
+			// dst exists in every record (a Sorted path is present): the real
+			// operator turns every record into error("rename: duplicate
+			// field"), after which no path exists any more
+			s.sorted = map[string]v07dFact{}
+			s.absent = map[string]bool{}
+			s.only = map[string]bool{}
+			return
+		}
+	}
+	// otherwise either dst is absent and takes over the facts of src, or it
+	// exists and every record becomes an error value (every claim vacuous):
+	// in both cases the facts of src hold for dst
 	facts, abs := s.copied(src, dst)
+	sk, _, sw := s.lookup(src)
+	everDst := false
+	for _, q := range v07dKeys(s.ever) {
+		everDst = everDst || v07dUnder(q, dst) || v07dUnder(dst, q)
+	}
 	s.assigned(dst, "rename-onto-key")
-	if dk == v07dAbsent {
-		for q, f := range facts {
-			s.sorted[q] = f
-		}
-		for q := range abs {
-			s.absent[q] = true
-		}
+	if !everDst && sk == v07dUnknown && sw != "never-sorted" {
+		// dst never was a sort key: a claim on it can only have been
+		// carried over from src, whose order was already lost upstream
+		s.why[dst] = sw
+	}
+	for q, f := range facts {
+		s.setSorted(q, f)
+	}
+	for q := range abs {
+		s.absent[q] = true
 	}
 	s.dropped(src, "rename")
 }
@@ -210,7 +267,7 @@ func (s *v07dState) scrambled(reason string, keepAbsent bool) {
 
 func (s *v07dState) sortedOn(p string, dir int, nullsMax bool) {
 	s.scrambled("re-sorted-on-another-key", true)
-	s.sorted[p] = v07dFact{dir: dir, nullsMax: nullsMax}
+	s.setSorted(p, v07dFact{dir: dir, nullsMax: nullsMax})
 }
 
 // merge of several legs that all carry state s (fork of identical legs).
@@ -219,7 +276,7 @@ func (s *v07dState) merged(p string, dir int) {
 	ok := k == v07dSorted && f.dir == dir && f.nullsMax
 	s.scrambled("merged-on-another-key", true)
 	if ok {
-		s.sorted[p] = f
+		s.setSorted(p, f)
 	}
 }
 
@@ -269,22 +326,45 @@ func v07dKeyReads(e dag.Expr) (string, bool) {
 	return "", false
 }
 
-// v07dCheckClaim asserts that the stream is ordered on path p in direction dir.
-func v07dCheckClaim(s *v07dState, p string, dir int, base string) bool {
+// v07dClass groups the reasons an order fact was lost by the root cause in
+// the optimizer (the ids reported are per class).
+func v07dClass(why string) string {
+	switch {
+	case strings.HasSuffix(why, "-parent-of-key"), strings.HasSuffix(why, "-subfield-of-key"):
+		// analyzeSortKeys compares paths with Equal only: an assignment to
+		// (or removal of) a parent or a subfield of the key goes unnoticed
+		return "nested-key-overlap"
+	}
+	return why
+}
+
+// v07dClaimStatus: is the stream ordered on path p in direction dir (nulls
+// as the largest value)?  If not, the region names why.
+func v07dClaimStatus(s *v07dState, p string, dir int) (bool, string) {
 	k, f, why := s.lookup(p)
 	switch {
 	case k == v07dAbsent:
+		return true, "vacuous"
+	case k == v07dUnknown:
+		return false, v07dClass(why)
+	case f.dir != dir:
+		return false, "wrong-direction"
+	case !f.nullsMax:
+		return false, "null-placement"
+	}
+	return true, ""
+}
+
+// v07dCheckClaim asserts that the stream is ordered on path p in direction dir.
+func v07dCheckClaim(s *v07dState, p string, dir int, base string) bool {
+	ok, region := v07dClaimStatus(s, p, dir)
+	if !ok {
+		verif.Assert(false, base+"/"+region)
+		return false
+	}
+	if region == "vacuous" {
 		verif.Reach("claim-holds-vacuously")
 		return true
-	case k == v07dUnknown:
-		verif.Assert(false, base+"/"+why)
-		return false
-	case f.dir != dir:
-		verif.Assert(false, base+"/wrong-direction")
-		return false
-	case !f.nullsMax:
-		verif.Assert(false, base+"/null-placement")
-		return false
 	}
 	verif.Assert(true, base)
 	verif.Reach("claim-justified")
@@ -293,51 +373,62 @@ func v07dCheckClaim(s *v07dState, p string, dir int, base string) bool {
 
 // v07dApplySummarize checks the claim the optimizer recorded in op (after it
 // ran) and returns the state of the summarize output.
-func v07dApplySummarize(s *v07dState, op *dag.Summarize) {
+func v07dApplySummarize(s *v07dState, op *dag.Summarize, matched int) {
 	lhs := v07dKey(fieldOf(op.Keys[0].LHS))
 	justified := false
 	if op.InputSortDir != 0 {
 		verif.Reach("summarize-sort-dir-set")
 		verif.Assert(op.InputSortDir == 1 || op.InputSortDir == -1, "summarize-sort-dir-is-a-direction")
+		base := "summarize-input-sorted-as-claimed"
 		p, ok := v07dKeyReads(op.Keys[0].RHS)
-		if !ok {
-			verif.Assert(false, "summarize-input-sorted-as-claimed/key-expression-order-unknown")
-		} else if call, isCall := op.Keys[0].RHS.(*dag.Call); isCall && call.Name == "every" && p != lhs {
-			if k, _, _ := s.lookup(p); k == v07dUnknown {
-				verif.Assert(false, "summarize-input-sorted-as-claimed/every-buckets-ts-not-the-key")
-			} else {
-				justified = v07dCheckClaim(s, p, op.InputSortDir, "summarize-input-sorted-as-claimed")
-			}
-		} else {
-			justified = v07dCheckClaim(s, p, op.InputSortDir, "summarize-input-sorted-as-claimed")
+		call, isCall := op.Keys[0].RHS.(*dag.Call)
+		primaryOK := false
+		if ok {
+			primaryOK, _ = v07dClaimStatus(s, p, op.InputSortDir)
+		}
+		switch {
+		case !ok:
+			verif.Assert(false, base+"/key-expression-order-unknown")
+		case !primaryOK && matched > 0:
+			// the optimizer matched the sort key with a later group-by key,
+			// the group-by operator releases groups on its FIRST key
+			// (groupby.NewAggregator: keyRefs[0], Consume: i == 0)
+			verif.Assert(false, base+"/sorted-key-is-not-the-primary-group-by-key")
+		case !primaryOK && isCall && call.Name == "every" && p != lhs:
+			verif.Assert(false, base+"/every-buckets-ts-not-the-key")
+		default:
+			justified = v07dCheckClaim(s, p, op.InputSortDir, base)
 		}
 	} else {
 		verif.Reach("summarize-sort-dir-unset")
 	}
 	n := v07dNewState()
-	n.only = map[string]bool{v07dTop(lhs): true, "count": true}
+	n.only = map[string]bool{"count": true}
+	for _, k := range op.Keys {
+		n.only[v07dTop(v07dKey(fieldOf(k.LHS)))] = true
+	}
 	if justified {
 		// a streaming group-by releases its groups in primary-key order
-		n.sorted[lhs] = v07dFact{dir: op.InputSortDir, nullsMax: true}
+		n.setSorted(lhs, v07dFact{dir: op.InputSortDir, nullsMax: true})
 	}
 	*s = *n
 }
 
-func v07dApplyJoin(left, right *v07dState, j *dag.Join) {
-	if j.LeftDir != 0 {
-		verif.Reach("join-left-dir-set")
-		v07dCheckClaim(left, v07dKey(fieldOf(j.LeftKey)), int(j.LeftDir), "join-left-input-sorted-as-claimed")
-	}
-	if j.RightDir != 0 {
-		verif.Reach("join-right-dir-set")
-		v07dCheckClaim(right, v07dKey(fieldOf(j.RightKey)), int(j.RightDir), "join-right-input-sorted-as-claimed")
-	}
+func v07dApplyJoin(left, right *v07dState, j *dag.Join, side int) {
 	if j.LeftDir == 0 && j.RightDir == 0 {
 		verif.Reach("join-dirs-unset")
 	}
+	if side == 0 && j.LeftDir != 0 {
+		verif.Reach("join-left-dir-set")
+		v07dCheckClaim(left, v07dKey(fieldOf(j.LeftKey)), int(j.LeftDir), "join-left-input-sorted-as-claimed")
+	}
+	if side == 1 && j.RightDir != 0 {
+		verif.Reach("join-right-dir-set")
+		v07dCheckClaim(right, v07dKey(fieldOf(j.RightKey)), int(j.RightDir), "join-right-input-sorted-as-claimed")
+	}
 }
 
-const v07dNumChainOps = 22
+const v07dNumChainOps = 25
 
 // v07dChainOp returns the DAG operators of intermediate template i and the
 // abstract transformer of the "sorted-on" state (run after the optimizer).
@@ -399,7 +490,7 @@ func v07dChainOp(i int) ([]dag.Op, func(*v07dState)) {
 			func(s *v07dState) { s.scrambled("over", false) }
 	case 18: // count() by k
 		sum := v07dSummarize(v07dThis("k"), v07dThis("k"))
-		return []dag.Op{sum}, func(s *v07dState) { v07dApplySummarize(s, sum) }
+		return []dag.Op{sum}, func(s *v07dState) { v07dApplySummarize(s, sum, 0) }
 	case 19: // fork (=> pass => pass) re-joined by the implicit combine: arbitrary interleaving
 		return []dag.Op{v07dPassFork()},
 			func(s *v07dState) { s.scrambled("fork-legs-combined-unordered", true) }
@@ -408,13 +499,22 @@ func v07dChainOp(i int) ([]dag.Op, func(*v07dState)) {
 			func(s *v07dState) { s.merged("k", 1) }
 	case 21: // uniq
 		return []dag.Op{&dag.Uniq{Kind: "Uniq"}}, ident
+	case 22: // drop k.a
+		return []dag.Op{&dag.Drop{Kind: "Drop", Args: []dag.Expr{v07dThis("k", "a")}}},
+			func(s *v07dState) { s.dropped("k.a", "drop") }
+	case 23: // cut j:=k
+		return []dag.Op{&dag.Cut{Kind: "Cut", Args: []dag.Assignment{v07dAssign(v07dThis("j"), v07dThis("k"))}}},
+			func(s *v07dState) { s.cut([]string{"j"}, []string{"k"}) }
+	case 24: // cut k:=x
+		return []dag.Op{&dag.Cut{Kind: "Cut", Args: []dag.Assignment{v07dAssign(v07dThis("k"), v07dThis("x"))}}},
+			func(s *v07dState) { s.cut([]string{"k"}, []string{"x"}) }
 	}
 	panic("v07dChainOp")
 }
 
 // verif:desc C07-O5 real Optimizer.propagateSortKey / propagateSortKeyOp / analyzeSortKeys / analyzeCuts / sortKeysOfSort / orderPreservingCall on [DefaultScan with declared sort key, 0..2 intermediate operators, consumer]: whenever the optimizer sets Summarize.InputSortDir (streaming release of groups) or Join.LeftDir/RightDir (no sort inserted), the input of that operator is ordered on the path the key expression reads, in that direction, with nulls as the largest value, according to the abstract interpretation of the operator semantics stated in this file (Sorted/Absent/Unknown per field path); an intermediate summarize is checked the same way.
-// verif:bounds source sort key in {none, k asc, k desc, k.a asc}; 0..2 intermediate operators from 22 templates {where x>0, put x:=x+1, put k:=x+1, put k.a:=x+1, cut k, cut x, cut k.a, drop x, drop k, rename j:=k, rename k:=x, sort j, sort -r k, sort -nulls first k desc, head 1, pass, yield {k:x}, over x, count() by k, fork(pass,pass), fork(pass,pass)|merge k, uniq}; consumer in {count() by k, by j, by k:=floor(k), by k:=every(1h), by k:=j, by k.a, fork(pass,pass)|join k=k, fork(rename j:=k, pass)|join j=k}; everything concrete (Choose)
-// verif:outside records that lack the key only in part (the state is per stream: all records have the path or none); mixed-type keys; secondary sort keys; pool/file sources (sortKeysOfSource needs a lake; FileScan keys are never propagated); the region ids after "/" name the operator that destroyed the order the optimizer still claims
+// verif:bounds source sort key in {none, k asc, k desc, k.a asc}; 0..2 intermediate operators from 25 templates {where x>0, put x:=x+1, put k:=x+1, put k.a:=x+1, cut k, cut x, cut k.a, drop x, drop k, rename j:=k, rename k:=x, sort j, sort -r k, sort -nulls first k desc, head 1, pass, yield {k:x}, over x, count() by k, fork(pass,pass), fork(pass,pass)|merge k, uniq, drop k.a, cut j:=k, cut k:=x}; consumer in {count() by k, by j, by k:=floor(k), by k:=every(1h), by k:=j, by k.a, by j,k, fork(pass,pass)|join k=k, fork(rename j:=k, pass)|join j=k (left or right claim checked)}; everything concrete (Choose)
+// verif:outside records that lack the key only in part (the state is per stream: all records have the path or none); mixed-type keys; secondary sort keys; pool/file sources (sortKeysOfSource needs a lake; FileScan keys are never propagated); the region ids after "/" name the class of operator that destroyed the order the optimizer still claims (fork-legs-combined-unordered, rename-onto-key, nested-key-overlap, null-placement, every-buckets-ts-not-the-key, sorted-key-is-not-the-primary-group-by-key)
 func VerifH_C07_O5_sortkey_propagation() {
 	v07dSortkeyPropagation(2)
 }
@@ -426,13 +526,13 @@ func v07dSortkeyPropagation(maxChain int) {
 	switch verif.Choose("source-key", 4) {
 	case 1:
 		src.SortKeys = order.SortKeys{order.NewSortKey(order.Asc, field.Path{"k"})}
-		st.sorted["k"] = v07dFact{dir: 1, nullsMax: true}
+		st.setSorted("k", v07dFact{dir: 1, nullsMax: true})
 	case 2:
 		src.SortKeys = order.SortKeys{order.NewSortKey(order.Desc, field.Path{"k"})}
-		st.sorted["k"] = v07dFact{dir: -1, nullsMax: true}
+		st.setSorted("k", v07dFact{dir: -1, nullsMax: true})
 	case 3:
 		src.SortKeys = order.SortKeys{order.NewSortKey(order.Asc, field.Path{"k", "a"})}
-		st.sorted["k.a"] = v07dFact{dir: 1, nullsMax: true}
+		st.setSorted("k.a", v07dFact{dir: 1, nullsMax: true})
 	}
 	seq := dag.Seq{src}
 	var xfs []func(*v07dState)
@@ -446,7 +546,7 @@ func v07dSortkeyPropagation(maxChain int) {
 	var join *dag.Join
 	var legs [2]func(*v07dState)
 	ident := func(*v07dState) {}
-	switch verif.Choose("consumer", 8) {
+	switch verif.Choose("consumer", 9) {
 	case 0:
 		sum = v07dSummarize(v07dThis("k"), v07dThis("k"))
 	case 1:
@@ -459,6 +559,9 @@ func v07dSortkeyPropagation(maxChain int) {
 		sum = v07dSummarize(v07dThis("k"), v07dThis("j"))
 	case 5:
 		sum = v07dSummarize(v07dThis("k", "a"), v07dThis("k", "a"))
+	case 8:
+		sum = v07dSummarize(v07dThis("j"), v07dThis("j"))
+		sum.Keys = append(sum.Keys, v07dAssign(v07dThis("k"), v07dThis("k")))
 	case 6:
 		seq = append(seq, v07dPassFork())
 		join = &dag.Join{Kind: "Join", Style: "inner", LeftKey: v07dThis("k"), RightKey: v07dThis("k")}
@@ -483,11 +586,31 @@ func v07dSortkeyPropagation(maxChain int) {
 		xf(st)
 	}
 	if sum != nil {
-		v07dApplySummarize(st, sum)
+		// which group-by key did the optimizer match the sort key with?  (the
+		// real propagateSortKey on the chain in front of the summarize gives
+		// the key it had in hand)
+		matched := 0
+		ps, err := o.propagateSortKey(seq[:len(seq)-1], []order.SortKeys{nil})
+		same := err == nil && len(ps) >= 1 && !ps[0].IsNil()
+		for _, p := range ps {
+			same = same && p.Equal(ps[0]) // several parents are condensed when equal
+		}
+		if same {
+			for i, k := range sum.Keys {
+				if fieldOf(k.LHS).Equal(ps[0].Primary().Key) {
+					matched = i
+					break
+				}
+			}
+		}
+		v07dApplySummarize(st, sum, matched)
 	} else {
 		right := v07dNewState()
 		for q, f := range st.sorted {
-			right.sorted[q] = f
+			right.setSorted(q, f)
+		}
+		for q := range st.ever {
+			right.ever[q] = true
 		}
 		for q := range st.absent {
 			right.absent[q] = true
@@ -503,7 +626,7 @@ func v07dSortkeyPropagation(maxChain int) {
 		}
 		legs[0](st)
 		legs[1](right)
-		v07dApplyJoin(st, right, join)
+		v07dApplyJoin(st, right, join, verif.Choose("join-side-checked", 2))
 	}
 	verif.Reach("end")
 }
@@ -558,5 +681,669 @@ func VerifH_C07_O5_sort_vs_groupby_order() {
 		verif.Reach("null-placement-differs")
 	}
 	verif.Assert(!(sc < 0 && gc > 0), id)
+	verif.Reach("end")
+}
+
+// ---------------------------------------------------------------------------
+// C07-O6: demand analysis (insertDemand / InferDemandSeqOut / inferDemandExprIn
+// and the demand package).  The harness states, per template operator, which
+// paths of its INPUT record the operator reads given what is needed of its
+// OUTPUT; the demand the real code computes for the scan must include them.
+// ---------------------------------------------------------------------------
+
+// v07dNeed is a set of field paths (each meaning the whole subtree), or everything.
+type v07dNeed struct {
+	all   bool
+	paths []string
+}
+
+func v07dNeedOf(p ...string) v07dNeed { return v07dNeed{paths: p} }
+
+func (n v07dNeed) union(m v07dNeed) v07dNeed {
+	if n.all || m.all {
+		return v07dNeed{all: true}
+	}
+	return v07dNeed{paths: append(append([]string{}, n.paths...), m.paths...)}
+}
+
+func (n v07dNeed) touches(p string) bool {
+	if n.all {
+		return true
+	}
+	for _, q := range n.paths {
+		if v07dUnder(q, p) || v07dUnder(p, q) {
+			return true
+		}
+	}
+	return false
+}
+
+// sub is the need on the value of field p, relative to that value.
+func (n v07dNeed) sub(p string) v07dNeed {
+	if n.all {
+		return n
+	}
+	var out []string
+	for _, q := range n.paths {
+		if v07dUnder(p, q) {
+			return v07dNeed{all: true}
+		}
+		if v07dUnder(q, p) {
+			out = append(out, q[len(p)+1:])
+		}
+	}
+	return v07dNeed{paths: out}
+}
+
+func (n v07dNeed) without(p string) v07dNeed {
+	if n.all {
+		return n
+	}
+	var out []string
+	for _, q := range n.paths {
+		if !v07dUnder(q, p) {
+			out = append(out, q)
+		}
+	}
+	return v07dNeed{paths: out}
+}
+
+// prefixed turns a need relative to the value of field p into a need on the record.
+func (n v07dNeed) prefixed(p string) v07dNeed {
+	if n.all {
+		return v07dNeedOf(p)
+	}
+	var out []string
+	for _, q := range n.paths {
+		out = append(out, p+"."+q)
+	}
+	return v07dNeed{paths: out}
+}
+
+func v07dGt0(e dag.Expr) dag.Expr { return dag.NewBinaryExpr(">", e, v07dLit("0")) }
+
+func v07dRecord(elems ...dag.RecordElem) *dag.RecordExpr {
+	return &dag.RecordExpr{Kind: "RecordExpr", Elems: elems}
+}
+
+func v07dField(name string, v dag.Expr) *dag.Field {
+	return &dag.Field{Kind: "Field", Name: name, Value: v}
+}
+
+func v07dYield(e dag.Expr) *dag.Yield { return &dag.Yield{Kind: "Yield", Exprs: []dag.Expr{e}} }
+
+// a[0].f as the semantic pass builds it: a Dot over a non-path expression
+func v07dIndexDot() dag.Expr {
+	return &dag.Dot{Kind: "Dot", LHS: &dag.IndexExpr{Kind: "IndexExpr", Expr: v07dThis("a"), Index: v07dLit("0")}, RHS: "f"}
+}
+
+const v07dNumDemandOps = 22
+
+// v07dDemandOp returns template operator i, the paths of its input it reads
+// as a function of what is needed of its output, and whether it contains a
+// dag.Dot expression.
+func v07dDemandOp(i int) (dag.Op, func(v07dNeed) v07dNeed, bool) {
+	switch i {
+	case 0: // cut a
+		return &dag.Cut{Kind: "Cut", Args: []dag.Assignment{v07dAssign(v07dThis("a"), v07dThis("a"))}},
+			func(out v07dNeed) v07dNeed { return out.sub("a").prefixed("a") }, false
+	case 1: // put b:=a+1
+		return &dag.Put{Kind: "Put", Args: []dag.Assignment{v07dAssign(v07dThis("b"), dag.NewBinaryExpr("+", v07dThis("a"), v07dLit("1")))}},
+			func(out v07dNeed) v07dNeed {
+				if out.touches("b") {
+					return out.without("b").union(v07dNeedOf("a"))
+				}
+				return out
+			}, false
+	case 2: // where c>0
+		return dag.NewFilter(v07dGt0(v07dThis("c"))),
+			func(out v07dNeed) v07dNeed { return out.union(v07dNeedOf("c")) }, false
+	case 3: // count() by a
+		return v07dSummarize(v07dThis("a"), v07dThis("a")),
+			func(v07dNeed) v07dNeed { return v07dNeedOf("a") }, false
+	case 4: // sort a
+		return &dag.Sort{Kind: "Sort", Args: []dag.SortExpr{{Key: v07dThis("a"), Order: order.Asc}}},
+			func(out v07dNeed) v07dNeed { return out.union(v07dNeedOf("a")) }, false
+	case 5: // rename d:=a
+		return &dag.Rename{Kind: "Rename", Args: []dag.Assignment{v07dAssign(v07dThis("d"), v07dThis("a"))}},
+			func(out v07dNeed) v07dNeed {
+				return out.without("d").without("a").union(out.sub("d").prefixed("a"))
+			}, false
+	case 6: // yield {x:a}
+		return v07dYield(v07dRecord(v07dField("x", v07dThis("a")))),
+			func(out v07dNeed) v07dNeed { return out.sub("x").prefixed("a") }, false
+	case 7: // drop a
+		return &dag.Drop{Kind: "Drop", Args: []dag.Expr{v07dThis("a")}},
+			func(out v07dNeed) v07dNeed { return out.without("a") }, false
+	case 8: // s:=sum(b) where c>0 by a
+		sum := v07dSummarize(v07dThis("a"), v07dThis("a"))
+		sum.Aggs = []dag.Assignment{v07dAssign(v07dThis("s"), &dag.Agg{Kind: "Agg", Name: "sum", Expr: v07dThis("b"), Where: v07dGt0(v07dThis("c"))})}
+		return sum, func(v07dNeed) v07dNeed { return v07dNeedOf("a", "b", "c") }, false
+	case 9: // yield a
+		return v07dYield(v07dThis("a")),
+			func(out v07dNeed) v07dNeed { return out.prefixed("a") }, false
+	case 10: // yield {r:{x:a,y:b}}
+		return v07dYield(v07dRecord(v07dField("r", v07dRecord(v07dField("x", v07dThis("a")), v07dField("y", v07dThis("b")))))),
+			func(out v07dNeed) v07dNeed {
+				r := out.sub("r")
+				return r.sub("x").prefixed("a").union(r.sub("y").prefixed("b"))
+			}, false
+	case 11: // yield {x:a[0].f}
+		return v07dYield(v07dRecord(v07dField("x", v07dIndexDot()))),
+			func(out v07dNeed) v07dNeed {
+				if out.touches("x") {
+					return v07dNeedOf("a")
+				}
+				return v07dNeed{}
+			}, true
+	case 12: // yield {...r, x:a}
+		return v07dYield(v07dRecord(&dag.Spread{Kind: "Spread", Expr: v07dThis("r")}, v07dField("x", v07dThis("a")))),
+			func(out v07dNeed) v07dNeed {
+				return out.sub("x").prefixed("a").union(out.without("x").prefixed("r"))
+			}, false
+	case 13: // count() by x:=r.x
+		return v07dSummarize(v07dThis("x"), v07dThis("r", "x")),
+			func(v07dNeed) v07dNeed { return v07dNeedOf("r.x") }, false
+	case 14: // count() by x
+		return v07dSummarize(v07dThis("x"), v07dThis("x")),
+			func(v07dNeed) v07dNeed { return v07dNeedOf("x") }, false
+	case 15: // yield this
+		return v07dYield(v07dThis()),
+			func(out v07dNeed) v07dNeed { return out }, false
+	case 16: // yield {x: c ? a : b}
+		return v07dYield(v07dRecord(v07dField("x", &dag.Conditional{Kind: "Conditional", Cond: v07dThis("c"), Then: v07dThis("a"), Else: v07dThis("b")}))),
+			func(out v07dNeed) v07dNeed {
+				if out.touches("x") {
+					return v07dNeedOf("a", "b", "c")
+				}
+				return v07dNeed{}
+			}, false
+	case 17: // where a[0].f > 0
+		return dag.NewFilter(v07dGt0(v07dIndexDot())),
+			func(out v07dNeed) v07dNeed { return out.union(v07dNeedOf("a")) }, true
+	case 18: // count() by k:=lower(a)
+		return v07dSummarize(v07dThis("k"), &dag.Call{Kind: "Call", Name: "lower", Args: []dag.Expr{v07dThis("a")}}),
+			func(v07dNeed) v07dNeed { return v07dNeedOf("a") }, false
+	case 19: // count() by x:=a[0].f.g
+		return v07dSummarize(v07dThis("x"), &dag.Dot{Kind: "Dot", LHS: v07dIndexDot(), RHS: "g"}),
+			func(v07dNeed) v07dNeed { return v07dNeedOf("a") }, true
+	case 20: // count()
+		sum := v07dSummarize(v07dThis("x"), v07dThis("x"))
+		sum.Keys = nil
+		return sum, func(v07dNeed) v07dNeed { return v07dNeed{} }, false
+	case 21: // yield {x:|{a:b}|}
+		return v07dYield(v07dRecord(v07dField("x", &dag.MapExpr{Kind: "MapExpr", Entries: []dag.Entry{{Key: v07dThis("a"), Value: v07dThis("b")}}}))),
+			func(out v07dNeed) v07dNeed {
+				if out.touches("x") {
+					return v07dNeedOf("a", "b")
+				}
+				return v07dNeed{}
+			}, false
+	}
+	panic("v07dDemandOp")
+}
+
+func v07dDemandCovers(d demand.Demand, p []string) bool {
+	if demand.IsAll(d) {
+		return true
+	}
+	if len(p) == 0 {
+		return false
+	}
+	return v07dDemandCovers(demand.GetKey(d, p[0]), p[1:])
+}
+
+// v07dFieldsCover: a nil projection reads everything; otherwise a listed path
+// reads its whole subtree.
+func v07dFieldsCover(fields []field.Path, p string) bool {
+	if fields == nil {
+		return true
+	}
+	for _, f := range fields {
+		if v07dUnder(p, v07dKey(f)) {
+			return true
+		}
+	}
+	return false
+}
+
+func v07dCheckDemand(d demand.Demand, need v07dNeed, dot bool, what string) {
+	verif.Assert(d != nil && demand.IsValid(d), what+"-demand-is-valid")
+	if d == nil {
+		return
+	}
+	if need.all {
+		verif.Assert(demand.IsAll(d), what+"-demand-is-all-when-everything-is-read")
+		verif.Reach("need-all")
+		return
+	}
+	id := what + "-demand-includes-every-path-read"
+	if dot {
+		id += "/dot-expression"
+	}
+	for _, p := range need.paths {
+		verif.Assert(v07dDemandCovers(d, strings.Split(p, ".")), id)
+	}
+	if len(need.paths) == 0 {
+		verif.Reach("need-none")
+	} else {
+		verif.Reach("need-some-paths")
+	}
+}
+
+// verif:desc C07-O6 real insertDemand / InferDemandSeqOut / inferDemandExprIn + demand.Union/Key/GetKey/Fields/IsValid on [SeqScan, op1?, op2?]: the demand computed for the scan's output (and for op1's output) includes every input path the downstream operators read according to the per-template read sets stated in this file (a conservative under-read is the bug: the pruned column would read as missing), is demand.All() whenever the whole record is read, is valid, and SeqScan.Fields as written by insertDemand covers the same paths (nil = everything).
+// verif:bounds 0..2 operators from 22 templates {cut a, put b:=a+1, where c>0, count() by a, sort a, rename d:=a, yield {x:a}, drop a, sum(b) where c>0 by a, yield a, yield {r:{x:a,y:b}}, yield {x:a[0].f}, yield {...r,x:a}, count() by x:=r.x, count() by x, yield this, yield {x:c?a:b}, where a[0].f>0, count() by k:=lower(a), count() by x:=a[0].f.g, count(), yield {x:|{a:b}|}}; the query output is read entirely; id .../dot-expression is the region of chains containing a dag.Dot over a non-path expression
+// verif:outside fork/scatter/over bodies (inferDemandSeqOutWith does not descend: scans inside get a nil demand = everything); how the vector scanner applies the projection; that the demand is not larger than needed
+func VerifH_C07_O6_demand() {
+	scan := &dag.SeqScan{Kind: "SeqScan"}
+	seq := dag.Seq{scan}
+	var reads []func(v07dNeed) v07dNeed
+	dot := false
+	n := verif.Choose("chain-len", 3)
+	for i := 0; i < n; i++ {
+		op, rd, d := v07dDemandOp(verif.Choose("op", v07dNumDemandOps))
+		seq = append(seq, op)
+		reads = append(reads, rd)
+		dot = dot || d
+	}
+	// needs[i] = what is needed of the output of seq[i]
+	needs := make([]v07dNeed, len(seq))
+	need := v07dNeed{all: true}
+	for i := len(seq) - 1; i >= 0; i-- {
+		needs[i] = need
+		if i > 0 {
+			need = reads[i-1](need)
+		}
+	}
+	demands := InferDemandSeqOut(seq)
+	v07dCheckDemand(demands[scan], needs[0], dot, "scan")
+	if len(seq) > 2 {
+		v07dCheckDemand(demands[seq[1]], needs[1], dot, "op")
+	}
+	out := insertDemand(seq)
+	verif.Assert(len(out) == len(seq) && out[0] == dag.Op(scan), "insertDemand-keeps-the-sequence")
+	if needs[0].all {
+		verif.Assert(scan.Fields == nil, "scan-projection-is-everything-when-everything-is-read")
+	} else {
+		id := "scan-projection-includes-every-path-read"
+		if dot {
+			id += "/dot-expression"
+		}
+		for _, p := range needs[0].paths {
+			verif.Assert(v07dFieldsCover(scan.Fields, p), id)
+		}
+		if scan.Fields != nil {
+			verif.Reach("projection-pruned")
+		}
+	}
+	verif.Reach("end")
+}
+
+// ---------------------------------------------------------------------------
+// C07-O7: lifting summarize / head / tail / stateless operators into parallel legs
+// ---------------------------------------------------------------------------
+
+func v07dSameExpr(a, b dag.Expr) bool {
+	switch a := a.(type) {
+	case nil:
+		return b == nil
+	case *dag.This:
+		b, ok := b.(*dag.This)
+		return ok && v07dKey(a.Path) == v07dKey(b.Path) && len(a.Path) == len(b.Path)
+	case *dag.Literal:
+		b, ok := b.(*dag.Literal)
+		return ok && a.Value == b.Value
+	case *dag.BinaryExpr:
+		b, ok := b.(*dag.BinaryExpr)
+		return ok && a.Op == b.Op && v07dSameExpr(a.LHS, b.LHS) && v07dSameExpr(a.RHS, b.RHS)
+	case *dag.Agg:
+		b, ok := b.(*dag.Agg)
+		return ok && a.Name == b.Name && v07dSameExpr(a.Expr, b.Expr) && v07dSameExpr(a.Where, b.Where)
+	case *dag.Call:
+		b, ok := b.(*dag.Call)
+		if !ok || a.Name != b.Name || len(a.Args) != len(b.Args) {
+			return false
+		}
+		for i := range a.Args {
+			if !v07dSameExpr(a.Args[i], b.Args[i]) {
+				return false
+			}
+		}
+		return true
+	}
+	return false
+}
+
+func v07dSameAssignments(a, b []dag.Assignment) bool {
+	if len(a) != len(b) {
+		return false
+	}
+	for i := range a {
+		if !v07dSameExpr(a[i].LHS, b[i].LHS) || !v07dSameExpr(a[i].RHS, b[i].RHS) {
+			return false
+		}
+	}
+	return true
+}
+
+// v07dLiftSummarize builds the summarize templates (fresh objects on every call).
+func v07dLiftSummarize(i int) *dag.Summarize {
+	switch i {
+	case 0: // count() by k
+		return v07dSummarize(v07dThis("k"), v07dThis("k"))
+	default: // count(), s:=sum(x) by k:=floor(x), j with -limit 10
+		s := v07dSummarize(v07dThis("k"), &dag.Call{Kind: "Call", Name: "floor", Args: []dag.Expr{v07dThis("x")}})
+		s.Keys = append(s.Keys, v07dAssign(v07dThis("j"), v07dThis("j")))
+		s.Aggs = append(s.Aggs, v07dAssign(v07dThis("s"), &dag.Agg{Kind: "Agg", Name: "sum", Expr: v07dThis("x")}))
+		s.Limit = 10
+		return s
+	}
+}
+
+func v07dSameStateless(a, b dag.Op) bool {
+	switch a := a.(type) {
+	case *dag.Filter:
+		b, ok := b.(*dag.Filter)
+		return ok && v07dSameExpr(a.Expr, b.Expr)
+	case *dag.Put:
+		b, ok := b.(*dag.Put)
+		return ok && v07dSameAssignments(a.Args, b.Args)
+	case *dag.Cut:
+		b, ok := b.(*dag.Cut)
+		return ok && v07dSameAssignments(a.Args, b.Args)
+	case *dag.Rename:
+		b, ok := b.(*dag.Rename)
+		return ok && v07dSameAssignments(a.Args, b.Args)
+	case *dag.Drop:
+		b, ok := b.(*dag.Drop)
+		if !ok || len(a.Args) != len(b.Args) {
+			return false
+		}
+		for i := range a.Args {
+			if !v07dSameExpr(a.Args[i], b.Args[i]) {
+				return false
+			}
+		}
+		return true
+	}
+	return false
+}
+
+// verif:desc C07-O7 real Optimizer.liftIntoParPaths (parallelPaths, copyOp, propagateSortKeyOp) on [Scatter|Fork of 2 legs, egress?, OP, Output] for the non-sort cases. Summarize: every leg ends in a copy with PartialsOut (same keys, aggregates, limit, sort direction), the original stays after the egress with PartialsIn, the same aggregates, and every key reading the partial's output name (RHS = LHS); an already partial summarize is left alone. Head/Tail: every leg ends in a copy with the same count and the original stays after the egress. Filter/Put/Cut/Drop/Rename: either nothing changes or every leg ends in an equal copy and the original becomes a pass; and it is NOT lifted into legs that are re-joined by a Merge unless the merge key still holds the value it had (abstract interpretation of VerifH_C07_O5: the key path must stay Sorted, merely Absent is not enough because the merge compares the values). The egress operator is never changed; Uniq is never lifted.
+// verif:bounds par in {Scatter, Fork} with 2 legs [pass]; egress in {none, Combine, Merge k asc, Merge k desc, Merge k.a asc}; OP in {count() by k, count(),sum(x) by k:=floor(x),j -limit 10 (each with InputSortDir 0, or the merge direction when the egress merges on k), the same already PartialsOut / PartialsIn, head 3, tail 2, where x>0, put x:=x+1, put k:=x+1, put k.a:=x+1, cut k, cut x, cut k.a, drop x, drop k, rename j:=k, rename k:=x, uniq}
+// verif:outside the Sort case (VerifH_C08_O3_lift_sort); a summarize whose InputSortDir is set although the legs are not merged on its key (parallelizeSeqScan never builds that; user-written forks: see VerifH_C07_O5 id fork-legs-combined-unordered); running the legs
+func VerifH_C07_O7_parallel_lift_ops() {
+	o := &Optimizer{ctx: context.Background()}
+	legs := []dag.Seq{{&dag.Pass{Kind: "Pass"}}, {&dag.Pass{Kind: "Pass"}}}
+	var par dag.Op
+	if verif.Choose("par", 2) == 0 {
+		par = &dag.Scatter{Kind: "Scatter", Paths: legs}
+	} else {
+		par = &dag.Fork{Kind: "Fork", Paths: legs}
+	}
+	var egressOp dag.Op
+	var merge *dag.Merge
+	mergeKey, mergeDir := "", 0
+	switch verif.Choose("egress", 5) {
+	case 1:
+		egressOp = &dag.Combine{Kind: "Combine"}
+	case 2:
+		merge, mergeKey, mergeDir = &dag.Merge{Kind: "Merge", Expr: v07dThis("k"), Order: order.Asc}, "k", 1
+	case 3:
+		merge, mergeKey, mergeDir = &dag.Merge{Kind: "Merge", Expr: v07dThis("k"), Order: order.Desc}, "k", -1
+	case 4:
+		merge, mergeKey, mergeDir = &dag.Merge{Kind: "Merge", Expr: v07dThis("k", "a"), Order: order.Asc}, "k.a", 1
+	}
+	if merge != nil {
+		egressOp = merge
+	}
+	const (
+		kSummarize = iota
+		kPartial
+		kHeadTail
+		kStateless
+		kUniq
+	)
+	var op dag.Op
+	var kind, sumTmpl int
+	var xf func(*v07dState)
+	switch c := verif.Choose("op", 20); {
+	case c < 2:
+		kind, sumTmpl = kSummarize, c
+		s := v07dLiftSummarize(c)
+		if mergeKey == "k" && verif.Choose("input-sort-dir-set", 2) == 1 {
+			s.InputSortDir = mergeDir
+		}
+		op = s
+	case c < 4:
+		kind, sumTmpl = kPartial, c-2
+		s := v07dLiftSummarize(c - 2)
+		if verif.Choose("partials-in", 2) == 1 {
+			s.PartialsIn = true
+		} else {
+			s.PartialsOut = true
+		}
+		op = s
+	case c == 4:
+		kind, op = kHeadTail, &dag.Head{Kind: "Head", Count: 3}
+	case c == 5:
+		kind, op = kHeadTail, &dag.Tail{Kind: "Tail", Count: 2}
+	case c < 17:
+		kind = kStateless
+		var ops []dag.Op
+		ops, xf = v07dChainOp(c - 6) // templates 0..10: where, put, cut, drop, rename
+		op = ops[0]
+	default:
+		kind, op = kUniq, &dag.Uniq{Kind: "Uniq"}
+	}
+	output := &dag.Output{Kind: "Output", Name: "main"}
+	ops := []dag.Op{par}
+	if egressOp != nil {
+		ops = append(ops, egressOp)
+	}
+	at := len(ops)
+	ops = append(ops, op, output)
+	n := len(ops)
+
+	o.liftIntoParPaths(ops)
+
+	paths, _ := parallelPaths(ops[0])
+	verif.Assert(ops[0] == par && len(paths) == 2 && len(ops) == n && ops[n-1] == dag.Op(output), "frame-kept")
+	if egressOp != nil {
+		verif.Assert(ops[1] == egressOp, "egress-operator-unchanged")
+	}
+	if merge != nil {
+		t, ok := merge.Expr.(*dag.This)
+		verif.Assert(ok && v07dKey(t.Path) == mergeKey && (merge.Order == order.Desc) == (mergeDir < 0), "egress-operator-unchanged")
+	}
+	for k := range paths {
+		_, isPass := paths[k][0].(*dag.Pass)
+		verif.Assert(len(paths[k]) >= 1 && len(paths[k]) <= 2 && isPass, "legs-only-appended-to")
+	}
+	lifted := len(paths[0]) == 2
+	verif.Assert((len(paths[1]) == 2) == lifted, "all-legs-treated-alike")
+	switch kind {
+	case kSummarize:
+		verif.Reach("summarize")
+		orig := op.(*dag.Summarize)
+		want := v07dLiftSummarize(sumTmpl)
+		verif.Assert(lifted, "summarize-split-into-partials")
+		for k := range paths {
+			if len(paths[k]) != 2 {
+				continue
+			}
+			leg, ok := paths[k][1].(*dag.Summarize)
+			verif.Assert(ok && leg != orig, "leg-ends-in-a-copy-of-the-summarize")
+			if !ok {
+				continue
+			}
+			verif.Assert(leg.PartialsOut && !leg.PartialsIn, "leg-summarize-emits-partials")
+			verif.Assert(v07dSameAssignments(leg.Keys, want.Keys), "leg-summarize-has-the-original-keys")
+			verif.Assert(v07dSameAssignments(leg.Aggs, want.Aggs), "leg-summarize-has-the-original-aggregates")
+			verif.Assert(leg.Limit == want.Limit && leg.InputSortDir == orig.InputSortDir, "leg-summarize-keeps-limit-and-sort-dir")
+		}
+		verif.Assert(ops[at] == dag.Op(orig), "summarize-stays-after-the-egress")
+		verif.Assert(orig.PartialsIn && !orig.PartialsOut, "post-egress-summarize-consumes-partials")
+		verif.Assert(v07dSameAssignments(orig.Aggs, want.Aggs), "post-egress-summarize-has-the-original-aggregates")
+		verif.Assert(len(orig.Keys) == len(want.Keys), "post-egress-summarize-has-the-original-key-names")
+		for i := range orig.Keys {
+			if i < len(want.Keys) {
+				verif.Assert(v07dSameExpr(orig.Keys[i].LHS, want.Keys[i].LHS), "post-egress-summarize-has-the-original-key-names")
+				verif.Assert(v07dSameExpr(orig.Keys[i].RHS, want.Keys[i].LHS), "post-egress-keys-read-the-partials-output-names")
+			}
+		}
+		verif.Assert(orig.Limit == want.Limit, "post-egress-summarize-keeps-limit")
+		if orig.InputSortDir != 0 {
+			verif.Assert(merge != nil && mergeKey == "k" && orig.InputSortDir == mergeDir, "post-egress-sort-dir-backed-by-the-merge")
+			verif.Reach("summarize-streaming-after-merge")
+		}
+	case kPartial:
+		verif.Reach("already-partial")
+		orig := op.(*dag.Summarize)
+		verif.Assert(!lifted && ops[at] == op, "partial-summarize-left-alone")
+		verif.Assert(orig.PartialsIn != orig.PartialsOut, "partial-summarize-left-alone")
+		verif.Assert(v07dSameAssignments(orig.Keys, v07dLiftSummarize(sumTmpl).Keys), "partial-summarize-left-alone")
+	case kHeadTail:
+		verif.Reach("head-tail")
+		verif.Assert(lifted, "head-tail-copied-into-legs")
+		for k := range paths {
+			if len(paths[k]) != 2 {
+				continue
+			}
+			switch orig := op.(type) {
+			case *dag.Head:
+				leg, ok := paths[k][1].(*dag.Head)
+				verif.Assert(ok && leg != orig && leg.Count == 3, "leg-ends-in-a-copy-with-the-same-count")
+			case *dag.Tail:
+				leg, ok := paths[k][1].(*dag.Tail)
+				verif.Assert(ok && leg != orig && leg.Count == 2, "leg-ends-in-a-copy-with-the-same-count")
+			}
+		}
+		verif.Assert(ops[at] == op, "head-tail-stays-after-the-egress")
+		switch orig := op.(type) {
+		case *dag.Head:
+			verif.Assert(orig.Count == 3, "head-tail-stays-after-the-egress")
+		case *dag.Tail:
+			verif.Assert(orig.Count == 2, "head-tail-stays-after-the-egress")
+		}
+	case kStateless:
+		if lifted {
+			verif.Reach("stateless-lifted")
+			for k := range paths {
+				if len(paths[k]) == 2 {
+					verif.Assert(paths[k][1] != op && v07dSameStateless(op, paths[k][1]), "leg-ends-in-an-equal-copy")
+				}
+			}
+			_, isPass := ops[at].(*dag.Pass)
+			verif.Assert(isPass, "lifted-operator-replaced-by-pass")
+			if merge != nil {
+				st := v07dNewState()
+				st.setSorted(mergeKey, v07dFact{dir: mergeDir, nullsMax: true})
+				xf(st)
+				k, f, why := st.lookup(mergeKey)
+				id := "no-operator-lifted-past-a-merge-whose-key-it-modifies"
+				switch {
+				case k == v07dAbsent:
+					verif.Assert(false, id+"/merge-key-removed")
+				case k == v07dUnknown:
+					verif.Assert(false, id+"/"+v07dClass(why))
+				default:
+					verif.Assert(f.dir == mergeDir, id)
+					verif.Reach("lifted-past-merge-key-intact")
+				}
+			}
+		} else {
+			verif.Reach("stateless-not-lifted")
+			verif.Assert(ops[at] == op, "unlifted-operator-stays")
+			verif.Assert(merge != nil, "stateless-operator-lifted-when-legs-are-not-merged")
+		}
+	case kUniq:
+		verif.Reach("uniq")
+		verif.Assert(!lifted && ops[at] == op, "uniq-never-lifted")
+	}
+	verif.Reach("end")
+}
+
+// v07dLegOps are the single-operator templates of v07dChainOp (no forks).
+var v07dLegOps = []int{0, 1, 2, 3, 4, 5, 6, 7, 8, 9, 10, 11, 12, 13, 14, 15, 16, 17, 18, 21, 22, 23, 24}
+
+// verif:desc C07-O7 (which operators go into the legs) real Optimizer.concurrentPath, which parallelizeSeqScan uses to decide how many of the operators after a pool scan are replicated into the scatter legs and on which key the legs are re-joined by a dag.Merge: whenever it asks for a merge, the key it names is non-empty and, unless the path stopped at a sort that is itself going to produce that key, every leg -- the scan ordered on the pool key followed by the first n operators -- still carries the named key with its values ordered in the named direction (abstract interpretation of VerifH_C07_O5; a key that is merely Absent is not enough, the merge compares its values), so that the merge reproduces the order of the sequential plan.
+// verif:bounds pool key in {k asc, k desc, k.a asc}; 0..2 operators from the 23 single-operator templates of VerifH_C07_O5, followed by nothing, head 1 or count() by k
+// verif:outside parallelizeSeqScan itself (needs a lake to look the pool key up); pools without a sort key; multi-key pools (not parallelized)
+func VerifH_C07_O7_concurrent_path() {
+	o := &Optimizer{ctx: context.Background()}
+	st := v07dNewState()
+	var srcKeys order.SortKeys
+	switch verif.Choose("pool-key", 3) {
+	case 0:
+		srcKeys = order.SortKeys{order.NewSortKey(order.Asc, field.Path{"k"})}
+		st.setSorted("k", v07dFact{dir: 1, nullsMax: true})
+	case 1:
+		srcKeys = order.SortKeys{order.NewSortKey(order.Desc, field.Path{"k"})}
+		st.setSorted("k", v07dFact{dir: -1, nullsMax: true})
+	case 2:
+		srcKeys = order.SortKeys{order.NewSortKey(order.Asc, field.Path{"k", "a"})}
+		st.setSorted("k.a", v07dFact{dir: 1, nullsMax: true})
+	}
+	var ops []dag.Op
+	var xfs []func(*v07dState)
+	nchain := verif.Choose("chain-len", 3)
+	for i := 0; i < nchain; i++ {
+		tops, xf := v07dChainOp(v07dLegOps[verif.Choose("chain-op", len(v07dLegOps))])
+		ops = append(ops, tops[0])
+		xfs = append(xfs, xf)
+	}
+	switch verif.Choose("then", 3) {
+	case 1:
+		ops = append(ops, &dag.Head{Kind: "Head", Count: 1})
+	case 2:
+		ops = append(ops, v07dSummarize(v07dThis("k"), v07dThis("k")))
+	}
+	n, outKeys, _, needMerge, err := o.concurrentPath(ops, srcKeys)
+	verif.Assert(err == nil, "concurrent-path-no-error")
+	verif.Assert(n >= 0 && n <= len(ops), "concurrent-path-length-in-range")
+	if err != nil || n < 0 || n > len(ops) {
+		return
+	}
+	for i := 0; i < n && i < len(xfs); i++ {
+		xfs[i](st)
+	}
+	verif.Assert(n <= len(xfs), "only-stateless-operators-go-into-the-legs")
+	if !needMerge {
+		verif.Reach("legs-combined")
+		verif.Reach("end")
+		return
+	}
+	verif.Assert(len(outKeys) == 1, "merge-has-exactly-one-key")
+	if len(outKeys) != 1 {
+		return
+	}
+	if n < len(ops) {
+		if _, isSort := ops[n].(*dag.Sort); isSort {
+			// the merge key is the key of the sort the path stopped at
+			verif.Reach("stopped-at-sort")
+			verif.Reach("end")
+			return
+		}
+	}
+	key, dir := v07dKey(outKeys.Primary().Key), 1
+	if outKeys.Primary().Order == order.Desc {
+		dir = -1
+	}
+	k, f, why := st.lookup(key)
+	id := "legs-are-ordered-on-the-merge-key"
+	switch {
+	case k == v07dAbsent:
+		verif.Assert(false, id+"/merge-key-removed")
+	case k == v07dUnknown:
+		verif.Assert(false, id+"/"+v07dClass(why))
+	case f.dir != dir:
+		verif.Assert(false, id+"/wrong-direction")
+	case !f.nullsMax:
+		verif.Assert(false, id+"/null-placement")
+	default:
+		verif.Assert(true, id)
+		verif.Reach("merge-key-intact")
+	}
 	verif.Reach("end")
 }
